@@ -1111,6 +1111,9 @@ fn e2e(o: &mut Outcome, rng: &mut Rng, thorough: bool, parts: Parts, fixture_lit
     if parts.cmt {
         probes(o);
     }
+    if parts.lit {
+        probes_lit(o);
+    }
     if parts.idem {
         probes_idem(o);
     }
@@ -1144,8 +1147,7 @@ fn ask(req: String) -> String {
     run_model(&[req], 1).pop().unwrap_or_default()
 }
 
-/// Enumerated, seed-independent probes: the inputs known dirty on this tree (`fails` expected) and the
-/// reproductions of the four defects of string.rs that were repaired (`fails` must stay false).
+/// C03 probes (enumerated, seed-independent): the inputs known dirty on this tree (`fails` expected).
 fn probes(o: &mut Outcome) {
     let fmt = |src: &str, cfg: Vec<(String, String)>| pool::format_here(&Job { src: src.to_string(), cfg, file_lines: None });
     // STR-CMT-CR: the continuation regex of rewrite_string also runs over comment text
@@ -1165,7 +1167,12 @@ fn probes(o: &mut Outcome) {
         let refines = ask(format!("cmt.refines {} {} {}", enc_str("// "), enc_str(&before), enc_str(&after)));
         o.probes.push(json!({"id": "STR-CMT-WORDS", "fails": r.status == Status::Ok && a != "ok", "what": "wrap_comments: break_string breaks a comment line after a punctuation character inside a word (`aaa,bbb` comes back as `aaa,` and `bbb` on two lines): the word list changes although no character is lost", "detail": {"src": src, "out": r.out, "oracle": a, "refines": refines}}));
     }
-    // the four repaired defects of string.rs: reproductions, which must stay clean
+}
+
+/// C01 probes: the reproductions of the four value-changing defects of string.rs that were repaired
+/// (`fails` must stay false).
+fn probes_lit(o: &mut Outcome) {
+    let fmt = |src: &str, cfg: Vec<(String, String)>| pool::format_here(&Job { src: src.to_string(), cfg, file_lines: None });
     let fixed: [(&str, &str, usize); 4] = [
         ("STR-FIX-ESCAPE", "aaaaaaaaaaaaaaaaaaaaaaaaaaaaa\\nbbbbbbbbbbbbbbbbbbbbbbbbbbbbbbbbbbbbbbbbbbbbbbb", 60),
         ("STR-FIX-BLANK-TAIL", "aaaaaaaaaaaa bbbbbbbbbbbbbbbbbbb cccccccccccccccc                              ", 60),
@@ -1242,7 +1249,13 @@ pub fn run(tier: &str, seed: u64, out: &Path) -> i32 {
     if std::env::var_os("STRINGS_SHOW_PANICS").is_none() {
         std::panic::set_hook(Box::new(|_| {}));
     }
-    cases(&mut o, &mut rng, thorough);
+    // STRINGS_PARTS=c01|c02|c03 runs what the integrator wires into that check
+    match std::env::var("STRINGS_PARTS").as_deref() {
+        Ok("c01") => cases_c01(&mut o, &mut rng, thorough),
+        Ok("c02") => cases_c02(&mut o, &mut rng, thorough),
+        Ok("c03") => cases_c03(&mut o, &mut rng, thorough),
+        _ => cases(&mut o, &mut rng, thorough),
+    }
     // debugging aid: STRINGS_DUMP=<file> writes every failing comparison (the result file keeps three per op)
     if let Ok(path) = std::env::var("STRINGS_DUMP") {
         let reqs: Vec<String> = o.cases.iter().map(|c| c.request.clone()).collect();
